@@ -3,7 +3,7 @@
 //! crate `synlib`) over randomly generated type definitions that exercise what the bundled fixtures do not: every
 //! `rename_all` rule, `rename` (single and repeated), `skip` on fields and variants, `with`, tuple structs and
 //! variants with holes, unit structs used as field types, `Option`/`Vec`/tuple nesting, `Range`, `__private_field`,
-//! name clashes between crates, unsupported type expressions, unavailable crates.
+//! renamed containers, unsupported type expressions, unavailable crates.
 //! The result is rustdoc JSON (format of rustdoc-types 0.38), parsed by the caller with `rustdoc_types::Crate`.
 use crate::rng::Rng;
 use serde_json::{json, Value};
@@ -38,6 +38,7 @@ struct Gen<'a> {
     /// (name, id) of the types fields may refer to: local ones, then (lib crate only: none) remote ones
     local: Vec<(String, u32)>,
     remote: Vec<(String, u32)>,
+    range_prim: &'static str,
 }
 
 fn no_args() -> Value {
@@ -78,22 +79,23 @@ impl<'a> Gen<'a> {
             }
             50..=57 if depth > 0 => {
                 let t = self.ty(depth - 1);
-                path_ty(if self.chance(20) { "core::option::Option" } else { "Option" }, ID_OPTION, vec![t])
+                path_ty(if self.chance(4) { "core::option::Option" } else { "Option" }, ID_OPTION, vec![t])
             }
             58..=62 if depth > 0 => {
                 let n = self.rng.below(4);
                 json!({"tuple": (0..n).map(|_| self.ty(depth - 1)).collect::<Vec<_>>()})
             }
-            63..=64 => path_ty("std::ops::Range", ID_RANGE, vec![json!({"primitive": if self.chance(50) { "u32" } else { "usize" }})]),
-            65 => json!({"primitive": *self.rng.pick(&["f32", "f64", "str", "never"])}),
-            66 => json!({"generic": "T"}),
-            67 => json!({"slice": {"primitive": "u8"}}),
-            68 => json!({"borrowed_ref": {"lifetime": null, "is_mutable": false, "type": {"primitive": "str"}}}),
-            69 => {
+            // one `Range` element type per crate set: `Range<u32>` next to `Range<usize>` makes two containers `Range`
+            63..=64 => path_ty("std::ops::Range", ID_RANGE, vec![json!({"primitive": self.range_prim})]),
+            65 if self.chance(15) => json!({"primitive": *self.rng.pick(&["f32", "f64", "str", "never"])}),
+            66 if self.chance(15) => json!({"generic": "T"}),
+            67 if self.chance(15) => json!({"slice": {"primitive": "u8"}}),
+            68 if self.chance(15) => json!({"borrowed_ref": {"lifetime": null, "is_mutable": false, "type": {"primitive": "str"}}}),
+            69 if self.chance(50) => {
                 let (n, id) = self.local[self.rng.below(self.local.len() as u64) as usize].clone();
                 json!({"qualified_path": {"name": "Output", "args": no_args(), "self_type": path_ty(&n, id, vec![]), "trait": null}})
             }
-            70 => {
+            70 if self.chance(15) => {
                 let t = self.ty(0);
                 path_ty("Box", ID_BOX, vec![t])
             }
@@ -144,7 +146,10 @@ impl<'a> Gen<'a> {
             }
         }
         if own_rename && self.chance(5) {
-            a.push("#[serde(rename = \"Renamed\")]".to_string());
+            a.push(format!("#[serde(rename = \"Renamed{}{}\")]", self.krate, self.next));
+            if self.chance(40) {
+                a.push(format!("#[serde(rename = \"Again{}{}\")]", self.krate, self.next));
+            }
         }
         a
     }
@@ -301,20 +306,22 @@ fn common_paths(g: &mut Gen) {
 pub fn crates(root_name: &str, seed: u64) -> Vec<(String, Value)> {
     let mut rng = Rng::new(seed ^ 0xC20C20);
     let with_lib = rng.below(100) < 65;
+    let range_prim = *rng.pick(&["u32", "usize", "i64"]);
     let mut out = vec![];
 
     // ---- the dependent crate: operations with outputs over its own types
     let mut lib_types: Vec<(String, u32)> = vec![];
     let mut lib_ops: Vec<(String, u32)> = vec![];
     if with_lib {
-        let mut g = Gen { rng: &mut rng, krate: "synlib".into(), next: 0, index: vec![], paths: vec![], local: vec![], remote: vec![] };
+        let mut g = Gen { rng: &mut rng, krate: "synlib".into(), next: 0, index: vec![], paths: vec![], local: vec![], remote: vec![], range_prim };
         common_paths(&mut g);
         let n = 2 + g.rng.below(4) as usize;
-        // names may clash with the root crate's on purpose (both draw from NAMES)
         let mut pool: Vec<&str> = NAMES.to_vec();
         for _ in 0..n {
             let name = pool.remove(g.rng.below(pool.len() as u64) as usize);
-            let name = if g.chance(70) { format!("Lib{name}") } else { name.to_string() };
+            // container names are unique over both crates: with two containers of one name the real CLI keeps
+            // whichever its datalog run derived last (not a function of the description; see Props/C20.lean NoClash)
+            let name = format!("Lib{name}");
             let id = g.id();
             g.local.push((name, id));
         }
@@ -335,7 +342,7 @@ pub fn crates(root_name: &str, seed: u64) -> Vec<(String, Value)> {
     }
 
     // ---- the root crate
-    let mut g = Gen { rng: &mut rng, krate: "shared".into(), next: 0, index: vec![], paths: vec![], local: vec![], remote: vec![] };
+    let mut g = Gen { rng: &mut rng, krate: "shared".into(), next: 0, index: vec![], paths: vec![], local: vec![], remote: vec![], range_prim };
     common_paths(&mut g);
     // ids of remote items are the root crate's own numbers for them
     for (k, (name, _)) in lib_types.iter().enumerate() {
